@@ -59,6 +59,16 @@ Definition external_tile_coord (s : tlayer) (c : coord) (use_profiles : bool) : 
     let z1 := if use_profiles && skip_first s then z - 1 else z in
     Some (x, y, if skip_odd s then z1 / 2 else z1).
 
+(* ---- TileServiceGrid.internal_level / .bbox (used by the demo pages only) *)
+Definition internal_level (s : tlayer) (level : Z) : Z :=
+  let l1 := if skip_first s then (if skip_odd s then level + 1 + 1 else level + 1) else level in
+  if skip_odd s then l1 * 2 else l1.
+(* the property looks up grid_sizes[internal_level(0)] (IndexError when that level does not exist: None) and then calls
+   self.grid._get_bbox, which does not exist: the AttributeError raised inside the property makes Python fall back to
+   __getattr__('bbox'), i.e. the bbox of the wrapped grid *)
+Definition svc_bbox (s : tlayer) : option bbox :=
+  if internal_level s 0 <? levels (sg s) then Some (gx0 (sg s), gy0 (sg s), gx1 (sg s), gy1 (sg s)) else None.
+
 (* ---- TileLayer._internal_tile_coord: per-request origin *)
 Inductive origin_req := ONone | OSW | ONW.
 Definition flip_for (g : grid) (o : origin_req) (c : coord) : coord :=
